@@ -1128,7 +1128,7 @@ func (e *Explorer) inlinable(s *State, root *ssa.Function, call *ssa.Call) *ssa.
 	if n := g.Name(); n == "" || !(n[0] >= 'a' && n[0] <= 'z') {
 		return nil
 	}
-	if g == Outermost(root) {
+	if g == Outermost(root) || Anchored[g] {
 		return nil
 	}
 	for _, fr := range s.Stack {
